@@ -12,16 +12,16 @@ from engine.ir2c.kernel import Ctx, Infra, log, REPO, HK
 
 ID = "C33"
 ENGINE = "kernel"
-TECHNIQUE = ("LLVM IR of the real Parallel2DExecutor.cpp (ParallelExecutor = sequential stub recording passes) -> C (ir2c); exhaustive "
-             "enumeration of (gridSize, processors, rangeType) on the real g++ build and on the translation (differential), plus cbmc "
-             "bounded model checking of a small slice (memory safety, unwinding assertions)")
+TECHNIQUE = ("real Parallel2DExecutor.cpp with ParallelExecutor = sequential stub recording passes; EXHAUSTIVE ENUMERATION (no solver: the "
+             "partition logic has no data inputs) of (gridSize, processors, rangeType) on the g++ build of the real code and, "
+             "differentially, on the C translated from its LLVM IR (ir2c); optional cbmc slice")
 EXPLANATION = ("PARTIAL (partition clause only). For every gridSize <= 12, numProcessors 0..8 and the three range types, the real "
                "Parallel2DExecutorImpl (init, addSquare, addTriangle, execute, TriangleTask::execute, SquareTask::execute) executes every "
                "(i,j) of the requested range exactly once and nothing else, two different task indices of one ParallelExecutor::execute "
                "call (one pass) never touch a common row/column index, binStart is non-decreasing from 0 to gridSize, initialize "
                "precedes and finish follows all executions. The input space is finite and has no data inputs: it is enumerated "
-               "completely (exhaustive within the bounds), on the g++ build of the real code and on the IR translation; cbmc proves "
-               "the same assertions plus memory safety on the translation for the slice gridSize <= 4, 2 processors.")
+               "completely (exhaustive within the bounds), on the g++ build of the real code and on the IR translation. No solver decides "
+               "anything here; the opt-in cbmc slice (gridSize <= 4, 2 processors) did not terminate within its cap when measured.")
 BOUNDS = "gridSize 0..12, numProcessors 0..8 (=> bins <= 16), range types FullMatrix/HalfMatrix/HalfPlusDiagonal; cbmc slice: gridSize <= 4, numProcessors = 2, unwind 40"
 NOT_COVERED = ("EVERYTHING about concurrency: ParallelExecutor / ParallelWorkQueue (ParallelExecutor.cpp, ParallelWorkQueue.cpp are not "
                "compiled): mutual exclusion of finish, initialize/finish per worker thread, wake-up and termination protocol, deadlock "
@@ -29,7 +29,7 @@ NOT_COVERED = ("EVERYTHING about concurrency: ParallelExecutor / ParallelWorkQue
                "thread interleavings are not explored at all (std::thread/condition_variable live in libstdc++/pthread). Also: "
                "gridSize > 12, more than 8 processors, reuse of one executor with an external ParallelExecutor")
 LEVEL_TEXT = ("Exhaustive enumeration within bounds of the real Parallel2DExecutor partition logic (sequential executor stub) on the real "
-              "build and on its IR translation, plus a cbmc slice; the concurrency clauses of the property are NOT covered")
+              "build and on its IR translation (not solver-decided); the concurrency clauses of the property are NOT covered")
 LEVEL_NOTE = ("Partial: only 'runs each (i,j) of the requested range exactly once and never two invocations sharing an index in the same "
               "pass'. Trusted: the sequential stub's notion of a pass (= one ParallelExecutor::execute call), clang/g++, engine/ir2c, cbmc. "
               "Bounds: " + BOUNDS + " Not covered: " + NOT_COVERED)
@@ -92,7 +92,10 @@ def _main(tier, seed):
     for rt in ((1,) if tier == "quick" else (0, 1, 2)):
         jobs.append(dict(name="cbmc.slice.%s" % RTN[rt], files=["gen_p2d.c", os.path.join(HK, "C33_p2d.c")], function="h_partition", unwind=40, timeout=cap, sweep=(),
                          defines=["GMAX=4", "PLO=2", "PHI=2", "RT=%d" % rt, "RT_ALLOC_MAXUNITS=32"], extra=["--object-bits", "12"]))
-    if os.environ.get("VERIF_C33_NO_CBMC") != "1":
+    # measured in this sandbox: the slice does not finish within 900 s (heap-resident Array_ headers defeat cbmc's constant
+    # propagation, every allocation then fans out over all block sizes), so it is opt-in and its absence is stated in the evidence
+    ctx.extra["cbmc_slice"] = "run" if os.environ.get("VERIF_C33_CBMC") == "1" else "not run (opt-in with VERIF_C33_CBMC=1; did not finish within 900 s when measured)"
+    if os.environ.get("VERIF_C33_CBMC") == "1":
         res = ctx.run_jobs(jobs)
         viol = ctx.account_jobs(res, lambda j: "cbmc slice " + j["name"])
         for j, r in viol:
